@@ -4,7 +4,7 @@ from __future__ import annotations
 from hypothesis import strategies as st
 
 from vf.core import CaseResult, Ctx, Violation, hyp_run
-from vf.gen.wfspec import wfspecs
+from vf.gen.wfspec import render_flow, wfspecs
 from vf.sim.drive import SCase, outcome_maps, run_async, schedules
 
 PROP_ID = 'C31'
@@ -17,7 +17,12 @@ MANIFEST = {
 }
 RULE = (
     'Generated workflow where 1-2 tasks are declared sequential (special '
-    'tasks) and live on one or more recurrences with different steps, '
+    'tasks; in 2 of 3 cases wholly or partly through family names: 2-4 '
+    'runtime families, root or nested, 1-2 of them named in the sequential '
+    'list, each sequential task inheriting such a family or a sub-family of '
+    'it at any position of a 1-3 long parent list, or named directly; other '
+    'tasks inherit only families without a declared ancestor) '
+    'and live on one or more recurrences with different steps, '
     'offsets and exclusions, runahead limit P0-P4, random outcomes (also '
     'failures of sequential instances), schedules with slow jobs (delayed '
     'messages and command returns).  Oracle from the monitored status '
@@ -30,6 +35,14 @@ RULE = (
     'step > 1; distinct by the case.')
 ASSUMPTIONS = [
     'No manual intervention (manual triggers are outside the statement).',
+    'Declared sequential = named in [special tasks] sequential, or a member '
+    '(descendant through any parent, first or later, directly or via '
+    'sub-families) of a family named there ("Family names can be used in '
+    'special task lists as shorthand for listing all member tasks"); the '
+    'oracle uses the harness\'s own list of these tasks, never cylc\'s '
+    'parsed configuration.',
+    'The [runtime] inheritance text is written by this module and appended '
+    'to the rendered flow (repeated sections merge).',
 ]
 
 ACTIVE = ('preparing', 'submitted', 'running')
@@ -50,7 +63,12 @@ def cases(draw):
     k = min(k, len(pool))
     seq = draw(st.lists(st.sampled_from(pool), min_size=k,
                         max_size=k, unique=True))
-    spec['extra']['sequential'] = seq
+    decl, fam_parent, inherit = list(seq), {}, {}
+    if draw(st.integers(0, 2)):
+        decl, fam_parent, inherit = draw(family_declaration(spec, seq))
+    # the renderer writes the declared names (tasks / families) verbatim;
+    # the oracle only uses `seq_tasks`
+    spec['extra']['sequential'] = decl
     spec['extra']['runahead'] = 'P%d' % draw(st.integers(0, 4))
     outcomes = draw(outcome_maps(spec))
     sched = draw(schedules(40, ops=('loop', 'loop', 'ret', 'adv', 'del')))
@@ -59,7 +77,88 @@ def cases(draw):
     ret_delays = draw(st.lists(st.sampled_from([0, 0, 1, 3]),
                                min_size=1, max_size=5))
     return {'spec': spec, 'outcomes': outcomes, 'schedule': sched,
-            'delays': delays, 'ret_delays': ret_delays}
+            'delays': delays, 'ret_delays': ret_delays,
+            'seq_tasks': sorted(seq), 'fam_parent': fam_parent,
+            'inherit': inherit}
+
+
+FAMILIES = ['FA', 'FB', 'FC', 'FD']
+
+
+def fam_ancestors(fam_parent, f):
+    out = []
+    while f is not None:
+        out.append(f)
+        f = fam_parent.get(f)
+    return out
+
+
+@st.composite
+def family_declaration(draw, spec, seq):
+    """Declare the sequential set `seq` wholly or partly through family
+    names.  2-4 families, each a root family or the child of an earlier one;
+    1-2 of them (none an ancestor of another) are named in the `sequential`
+    list; every task of `seq` inherits a declared family or a descendant of
+    one - at any position of a 1-3 long parent list - or is named directly;
+    every other task inherits 0-2 families with no declared ancestor.
+    Returns (names to put in the sequential list, {family: parent family or
+    None}, {task: [parents in order]})."""
+    nf = draw(st.integers(2, len(FAMILIES)))
+    fams = FAMILIES[:nf]
+    fam_parent = {}
+    for i, f in enumerate(fams):
+        fam_parent[f] = (draw(st.sampled_from(fams[:i]))
+                         if i and draw(st.booleans()) else None)
+    anc = {f: fam_ancestors(fam_parent, f) for f in fams}
+    with_kids = [f for f in fams if f in fam_parent.values()]
+    declared = [draw(st.sampled_from(
+        with_kids if with_kids and draw(st.booleans()) else fams))]
+    more = [f for f in fams if declared[0] not in anc[f]
+            and f not in anc[declared[0]]]
+    if more and draw(st.booleans()):
+        declared.append(draw(st.sampled_from(more)))
+    seq_fams = [f for f in fams if set(anc[f]) & set(declared)]
+    plain_fams = [f for f in fams if f not in seq_fams]
+
+    def compatible(chosen, f):
+        # C3 linearisation: never a family together with its own ancestor
+        return all(f not in anc[g] and g not in anc[f] for g in chosen)
+
+    inherit, direct = {}, []
+    for t in spec['tasks']:
+        parents = []
+        if t in seq:
+            if draw(st.integers(0, 3)) == 0:
+                direct.append(t)
+            else:
+                sub = [f for f in seq_fams if f not in declared]
+                parents.append(draw(st.sampled_from(
+                    sub if sub and draw(st.booleans()) else seq_fams)))
+        pool = plain_fams if (t not in seq or t in direct) else fams
+        for _ in range(draw(st.integers(0, 2))):
+            cands = [f for f in pool if f not in parents
+                     and compatible(parents, f)]
+            if cands:
+                f = draw(st.sampled_from(cands))
+                # before (more often) or after the parents chosen so far
+                parents.insert(0 if draw(st.booleans()) else
+                               draw(st.integers(0, len(parents))), f)
+        if parents:
+            inherit[t] = parents
+    return direct + declared, fam_parent, inherit
+
+
+def render_families(case) -> str:
+    """[runtime] text appended to the rendered flow (repeated sections
+    merge)."""
+    L = []
+    for f, par in case.get('fam_parent', {}).items():
+        L += [f'    [[{f}]]']
+        if par:
+            L += [f'        inherit = {par}']
+    for t, parents in case.get('inherit', {}).items():
+        L += [f'    [[{t}]]', '        inherit = ' + ', '.join(parents)]
+    return '\n'.join(L) + '\n' if L else ''
 
 
 def check_case(case, ctx: Ctx) -> CaseResult:
@@ -68,7 +167,8 @@ def check_case(case, ctx: Ctx) -> CaseResult:
 
 async def _check(case, ctx: Ctx) -> CaseResult:
     spec = case['spec']
-    async with SCase(case, ctx) as sc:
+    flow = render_flow(spec) + render_families(case)
+    async with SCase(case, ctx, flow_text=flow) as sc:
         if sc.rejected:
             return CaseResult(sc.crash_violations('C31'), False,
                               ['rejected:' + sc.rejected])
@@ -76,7 +176,7 @@ async def _check(case, ctx: Ctx) -> CaseResult:
         await sc.run_schedule()
         await sc.drain()
         viol = sc.crash_violations('C31')
-        seq = [t for t in spec['extra']['sequential'] if model.valid[t]]
+        seq = [t for t in case['seq_tasks'] if model.valid[t]]
         active = {t: set() for t in seq}
         succeeded = set()
         launched = {t: 0 for t in seq}
@@ -122,12 +222,43 @@ async def _check(case, ctx: Ctx) -> CaseResult:
                     rich = True
         if rich:
             classes.add('irregular-sequence')
+        classes |= declaration_classes(case, set(seq), launched)
         uniq = {}
         for v in viol:
             uniq.setdefault(v.sig, v)
         return CaseResult(list(uniq.values()), rich, sorted(classes),
                           inconclusive=sc.inconclusive,
                           info={'flow': sc.drv.flow_text})
+
+
+def declaration_classes(case, seq, launched):
+    """How the sequential tasks (those with model instances) were
+    declared; `:ran2` = such a task had >= 2 instances launched."""
+    out = set()
+    fam_parent, inherit = case['fam_parent'], case['inherit']
+    decl = case['spec']['extra']['sequential']
+    for t in seq:
+        ran2 = launched[t] >= 2
+        kinds = []
+        if t in decl:
+            kinds.append('named-directly')
+        for i, f in enumerate(inherit.get(t, [])):
+            anc = fam_ancestors(fam_parent, f)
+            hit = [a for a in anc if a in decl]
+            if not hit:
+                continue
+            kinds.append('via-family')
+            kinds.append('via-family:first-parent' if i == 0
+                         else 'via-family:later-parent')
+            if hit[0] != f:
+                kinds.append('via-family:nested')
+        if len(inherit.get(t, [])) > 1:
+            kinds.append('multiple-inheritance')
+        for k in kinds:
+            out.add('declared:' + k)
+            if ran2:
+                out.add('declared:' + k + ':ran2')
+    return out
 
 
 def run_shard(ctx: Ctx):
